@@ -45,6 +45,8 @@ CYCLES = {
     # until the thread reports back
     "thread-wait-cut-task-ends": "(do (ev/spawn (protect (ev/with-deadline 0.001 (ev/thread (fn [&] (ev/sleep 0.004)))))) (ev/sleep 0.009))",
     "thread-wait-cancelled": "(let [f (ev/spawn (protect (ev/thread (fn [&] (ev/sleep 0.003)))))] (ev/sleep 0.001) (ev/cancel f :stop) (ev/sleep 0.006))",
+    "spawn-fails-with-pipes": "(protect (os/spawn [\"/nonexistent-sim-marker/prog\"] :p {:in :pipe :out :pipe :err :pipe}))",
+    "spawn-fails-no-path-lookup": "(protect (os/spawn [\"nonexistent-prog\"] : {:out :pipe}))",
     "to-file-less": "(let [[r w] (os/pipe)] (ev/write w (string/repeat \"x\" 5000)) (:close w) (ev/read r :all) (:close r))",
 }
 # counters that must not grow at all between N1 and N2 cycles, and those with a constant allowance
